@@ -1148,6 +1148,12 @@ func (se *specEnv) call(n *SCall) Value {
 		a, b := se.eval(n.Args[1]), se.eval(n.Args[2])
 		a, b = se.nilLike(a, b), se.nilLike(b, a)
 		if ua, ok := a.(Untyped); ok {
+			if ub, ok := b.(Untyped); ok {
+				a = Scalar{T: bv64(c, ua.V), Typ: intTyp}
+				b = Scalar{T: bv64(c, ub.V), Typ: intTyp}
+			}
+		}
+		if ua, ok := a.(Untyped); ok {
 			if sb, ok := b.(Scalar); ok && sb.T.Sort.IsBV() {
 				a = Scalar{T: c.BVC(uint64(ua.V), sb.T.Sort.W), Typ: sb.Typ}
 			}
